@@ -29,7 +29,7 @@ CLAIMED = {
             "header by the driver (global_header_hypothesis_decidable) and the renderer compared byte for byte with the headers written by plotgen and by every writing tool, C02.grids_are_cell_centres (linspace grids are the cell centres, over Rat), fab_header_codec, on the "
             "line/token model of PlotfileCooker.__init__/read_boxes/read_cell_headers (Header.parse, Taste.parseCellH); every exposed attribute is compared with an independent oracle's parse and "
             "with the Lean models for every opening mode (limits 0..finest+1, header_only on a directory holding only the Header, "
-            "maxmins).", "Float tokens are opaque strings in Lean (kept verbatim by parser and renderer); their numeric value and Python's str(float) are compared by the oracle only. Headers that are not a text of the renderer (tabs, several blanks between tokens, "
+            "maxmins).", "Float tokens are kept verbatim by parser and renderer; their numeric value is the Lean layer F64 (decimalValue: exact rational of the text; mag / mag_strictMono: exact value and order of bit patterns; tokenOK: the bits Python reads are the correctly rounded double, C02.exposed_float_is_nearest_double), run on every float token of every generated header; the reader's attributes are compared with float(token) by the oracle, and Python's str(float) stays a parameter. Headers that are not a text of the renderer (tabs, several blanks between tokens, "
             "more level blocks than the stated finest level as in the shipped 2D asset) are outside the parse-after-render theorems; they are still covered by the differential comparison of the parser model."),
     "C03": ("Lean 4 completeness theorem of the whole validator (well-formed plotfile => reported good) + differential correspondence check",
             "Proof: C03.well_formed_accepted (Taste.tastePlt_complete: EVERY well-formed plotfile - header a text of the header renderer, every selected level a rendered level header plus "
@@ -99,7 +99,7 @@ CLAIMED = {
             "and the regenerated obligation that imap_unordered is only used in whip; Probe.write_comm (writes to disjoint regions commute, so the "
             "array does not depend on the completion order of the per-file tasks within a level); whip's CLI is run in-process under "
             "every completion order (<= 4 files) and compared cell for cell with the oracle and the model for both dtypes and limits.",
-            "numpy dtype casts are compared on the real output only."),
+            "The float32 conversion is the Lean test F32.castOK (correctly rounded, ties to even, overflow to infinity, NaN kept; C10.cast_is_correctly_rounded), run on a sample of some thousand cells of every single-precision grid saved; other dtypes are compared with numpy only."),
     "C09": ("Lean 4 theorem on pestle's covering masks (3-D) + exact rational correspondence check",
             "Proof: C09.as_called (volume_integral as called - all components of every box, the field looked up by name, volFrac used iff requested and present, levels cut at the limit, the workers' "
             "sum(data[mask]*vf[mask]): the result is the sum over the uncovered cells of levels 0..limit of value x cell volume x volume fraction; limit_levels, unknown_field_is_an_error, weighted_sum), on top of C09.integral_eq_sum_over_uncovered (for any number of levels and any mix of box sizes aligned to the resolution, the model's integral IS the sum over "
@@ -121,7 +121,7 @@ CLAIMED = {
             "components, for independent layouts of every data subset), the regenerated state-vector tables (state_layout, "
             "output_names_match_state_order), C17.field_names_align / field_count (the field list - state, then gradient, then rates - lines up group by group with the components of chk_data's record; Names.chkFields compared with every written Header); outputs (API and console script, species from a list or a reference plotfile) parsed by the oracle, tasted with box coordinates, compared with the checkpoint's "
             "interior values, and the checkpoint tree is hashed before and after.",
-            "Ghost stripping and flooring are numpy slicing/division, compared on the real output; the written min / max rows are compared with the extrema the Lean model computes from the written bytes (C17.extrema_are_true); one known finding (integral time values)."),
+            "Ghost stripping and flooring are numpy slicing/division, compared on the real output; the written min / max rows are compared with the extrema the Lean model computes from the written bytes (C17.extrema_are_true); the checkpoint Header reading is the Lean model ChkHeader.parse (C17.grid_size_is_largest_upper_index, time_read_partial), compared with the real reader on every generated checkpoint; one known finding (integral time values), whose witness is proved in Lean (C17.integral_time_not_read)."),
     "C18": ("Lean 4 theorem on the two-column table layout + stdout round-trip correspondence check",
             "Proof: MenuR.shown_covers (the repaired two-column table shows every field exactly once, all n) and the pinned counterexample; "
             "C18.extrema_over_all_levels (the all-level entries - reduction of the per-level reductions with numpy's NaN / inf semantics - are the extrema over every box of every level) and nan_is_shown, "
@@ -171,7 +171,7 @@ CLAIMED = {
             "pipelines over {colander, combine with sibling/ancestor, chef} (all sequences of length <= 2 over kinds, sampled to length 4, plus "
             "chk2plt sources) are run on disk with every intermediate tasted, parsed by the oracle and compared bit for bit with the composed pure "
             "operations; the two named corollaries are explicit cases.",
-            "Record level, one AMR level (tools treat levels independently); the float tokens of rewritten headers (str(float)) are compared by the oracle only."),
+            "Record level; C14.pipeline_refines_levels lifts the induction to whole plotfiles (level limits cut levels, combine refuses other shapes); the float tokens of rewritten headers (str(float)) are compared by the oracle only."),
 }
 
 NOT_YET = {}
